@@ -7,6 +7,9 @@
    SafeError or feeds it at most 7 value bytes (digit-count bounded prefixes, single characters, ids).
    (2) The masking filters of Describe: the printed value is the first/last 4 (2 for the PIN block) characters
    around "****" and never contains the complete value.
+   The numbers are the library's: Gen/Filters.v is regenerated (go/ast) from field_filter.go on every run and
+   C18_filter_table ties the model's mask widths, pattern, the way each filter uses its constants and the table of
+   default filters to it.
    The translator's argument classification is syntactic and trusted; it is cross-checked dynamically: the oracle
    induces failures with high-entropy 12-19 character secrets over every kind, encoding and operation and greps
    every error text and every Describe output of the real library for them. The track filters are modelled
@@ -16,7 +19,7 @@
    cannot parse again is shown by its first and last four characters (repair of F31; the fall-back branch of t_filter). *)
 From Coq Require Import List Bool Strings.String.
 Import ListNotations.
-From Iso Require Import Model.Base Model.Describe Proofs.DescribeProofs Gen.ErrorSites.
+From Iso Require Import Model.Base Model.Describe Proofs.DescribeProofs Gen.ErrorSites Gen.Filters.
 Open Scope string_scope.
 Open Scope nat_scope.
 Open Scope list_scope.
@@ -73,6 +76,22 @@ Print Assumptions C18_describe_pin.
 Example C18_ex : pan_filter [x34; x32; x34; x32; x34; x32; x34; x32; x34; x32; x34; x32; x34; x32; x34; x32] =
   [x34; x32; x34; x32; x2a; x2a; x2a; x2a; x34; x32; x34; x32].
 Proof. vm_compute; reflexivity. Qed.
+
+(* the model's masking filters use the library's constants: first / last index 4 (PAN), 2 (PIN), pattern "****"; each
+   filter mentions its constants in the order  len < first+last ... in[0:first] + pattern + in[len-last:];  and the
+   default table routes 2 and 20 to the PAN filter, 35 / 36 / 45 to the track filters, 52 to the PIN filter *)
+Definition lookz (k : string) (l : list (string * Z)) : Z := match find (fun kv => String.eqb (fst kv) k) l with Some kv => snd kv | None => (-1)%Z end.
+Definition looks (k : string) (l : list (string * string)) : string := match find (fun kv => String.eqb (fst kv) k) l with Some kv => snd kv | None => "" end.
+Theorem C18_filter_table :
+  (forall v, pan_filter v = mask (Z.to_nat (lookz "panFistIndex" filter_ints)) v) /\ lookz "panLastIndex" filter_ints = lookz "panFistIndex" filter_ints /\
+  (forall v, pin_filter v = mask (Z.to_nat (lookz "pinFirstIndex" filter_ints)) v) /\ lookz "pinLastIndex" filter_ints = lookz "pinFirstIndex" filter_ints /\
+  list_byte_of_string (looks "panPattern" filter_patterns) = stars /\ list_byte_of_string (looks "pinPattern" filter_patterns) = stars /\
+  filter_uses = [("EMVFilter", ["emvFirstIndex"; "emvLastIndex"; "emvFirstIndex"; "emvPattern"; "emvLastIndex"]);
+                 ("PANFilter", ["panFistIndex"; "panLastIndex"; "panFistIndex"; "panPattern"; "panLastIndex"]);
+                 ("PINFilter", ["pinFirstIndex"; "pinLastIndex"; "pinFirstIndex"; "pinPattern"; "pinLastIndex"])] /\
+  default_filters = [("2", "PANFilter"); ("20", "PANFilter"); ("35", "Track2Filter"); ("36", "Track3Filter"); ("45", "Track1Filter"); ("52", "PINFilter"); ("55", "EMVFilter")].
+Proof. repeat split; reflexivity. Qed.
+Print Assumptions C18_filter_table.
 
 (* ---- track filters ---- *)
 Close Scope string_scope.
